@@ -19,6 +19,7 @@ fn main() {
         "reader" => h::eng_reader::main(rest),
         "transfer" => h::eng_transfer::main(rest),
         "tamper" => h::eng_tamper::main(rest),
+        "format" => h::eng_format::main(rest),
         e => {
             eprintln!("unknown engine {e}");
             std::process::exit(2);
